@@ -163,3 +163,78 @@ func (fc *FuncCtx) sprintfUninterp(f Term, args []Term) Term {
 	fc.declareFun(name, sorts, SString)
 	return App(SString, name, ts...)
 }
+
+// sinterpConst: frt.SInterP with a constant format.  By SInterP's contract (proved under C14) the
+// result is fmt.Sprintf(format, toS(arg0), toS(arg1), ...) with toS(x) == tos_spec(x); with the assumed
+// fmt fragment (%s of a string is the string) that is the concatenation below.
+func (fc *FuncCtx) sinterpConst(call *ast.CallExpr, st *St) ([]Term, bool) {
+	if fc.StrMode == "bytes" || call.Ellipsis.IsValid() || len(call.Args) == 0 {
+		return nil, false
+	}
+	tv, ok := fc.info().Types[call.Args[0]]
+	if !ok || tv.Value == nil {
+		return nil, false
+	}
+	format, err := unquoteConst(tv.Value.ExactString())
+	if err != nil {
+		return nil, false
+	}
+	sf := fc.E.CS.SpecFuns["tos_spec"]
+	if sf == nil {
+		return nil, false
+	}
+	fc.Deps["frt.SInterP"] = true
+	fc.Assumed["fmt.Sprintf: %s of a string is the string, %d / %v / %f of a value is a fixed function of the value, %% is a percent sign, other text is copied (assumed fragment)"] = true
+	var args []Term
+	for _, a := range call.Args[1:] {
+		args = append(args, fc.eval(a, st))
+	}
+	env := fc.newEnv(st)
+	var parts []Term
+	lit := ""
+	ai := 0
+	flush := func() {
+		if lit != "" {
+			parts = append(parts, StrLit(lit))
+			lit = ""
+		}
+	}
+	for i := 0; i < len(format); i++ {
+		c := format[i]
+		if c != '%' {
+			lit += string(c)
+			continue
+		}
+		if i+1 >= len(format) {
+			lit += "%!(NOVERB)"
+			continue
+		}
+		i++
+		v := format[i]
+		if v == '%' {
+			lit += "%"
+			continue
+		}
+		if ai >= len(args) {
+			lit += "%!" + string(v) + "(MISSING)"
+			continue
+		}
+		a := args[ai]
+		ai++
+		flush()
+		tos := fc.applySpecFun(sf, []Term{fc.boxAny(a)}, env)
+		if v == 's' || v == 'v' {
+			parts = append(parts, tos)
+		} else {
+			parts = append(parts, fc.fmtVerb(v, tos))
+		}
+	}
+	flush()
+	if len(parts) == 0 {
+		return []Term{StrLit("")}, true
+	}
+	if len(parts) == 1 {
+		return []Term{parts[0]}, true
+	}
+	return []Term{App(SString, "str.++", parts...)}, true
+}
